@@ -52,6 +52,33 @@ PROPS = {
     'C12': P('other', False,
              'Kani contracts per (N, M): new/default/boxed empty; From<[T;M]>, from_iter, extend keep the last N in order and destroy the rest exactly once (ledger); clone/clone_from/to_vec give '
              'fresh clones (parent ids) in order, source untouched, nothing shared; into_iter yields the original elements in order. Bounded in N and M.'),
+    'C08': P('other', False,
+             'Kani single-step contracts for Iter / IterMut / IntoIter over every (Bound, Bound) pair and every interleaving of next / next_back up to N+1 steps: each call yields the '
+             'front-most / back-most selected element not yet produced (by id and by address), len()/size_hint() are exact at every step, a cloned Iter continues independently, '
+             'exhausted iterators stay exhausted, default iterators are empty. Complete per capacity N, bounded in N. (Verus part for Iter::next/next_back/len: see DESIGN.md, stretch goal.)'),
+    'C09': P('other', False,
+             'Kani contract for drain over every (Bound, Bound) pair, every layout, every interleaving of next / next_back up to N+1 steps and drop after any number of steps: yields exactly '
+             'orig[a..b] in order, exact len, afterwards the buffer is orig[..a] ++ orig[b..], every drained element not handed out is destroyed exactly once (ledger); capacities include 0. Bounded in N.'),
+    'C10': P('other', False,
+             'Invariant proved by Kani per capacity: from the return of drain() until its drop the buffer itself is the empty valid sequence (size == 0, wf) after every step; after mem::forget the '
+             'buffer is a valid sequence of live distinct original elements disjoint from those handed out, keeps behaving like the model, and dropping it destroys nothing twice. Bounded in N.'),
+    'C13': P('other', False,
+             'Kani contracts over u8 buffers with both layouts symbolic: eq == equality of the element sequences for capacity pairs (N, M) incl. slices, arrays and references to them; '
+             'partial_cmp/cmp == lexicographic order; equal same-capacity buffers feed identical data to a recording Hasher. Bounded in (N, M).',
+             not_covered=['Debug output under every formatter flag (assumed contract of core::fmt::DebugList; the crate-side obligation that (&buf).into_iter() yields the view is checked under C07/C08)']),
+    'C14': P('other', False,
+             'Kani contracts for std::io::{Write, Read, BufRead} on CircularBuffer<N, u8>: symbolic layout, symbolic input / destination lengths, consume(k) over the full usize range; '
+             'results and contents are those of the byte-stream model; never Err, never a panic, capacity 0 included. Bounded in N.'),
+    'C16': P('other', False,
+             'Kani: the embedded-io and embedded-io-async impls are run on a bitwise copy of the same symbolic state as the std::io impls and must return the same counts/bytes and leave the same contents; '
+             'async fns are polled once with a no-op waker and must be Ready. Feature sets: embedded-io, embedded-io-async, both. Bounded in N.'),
+    'C17': P('other', False,
+             'Frame contract "calls no allocator entry point": the operation contracts are re-run with std::alloc::{alloc, alloc_zeroed, realloc} stubbed to panic (positive control: boxed() must trip the stub). '
+             'Build half: the crate (with the harness module) compiles and verifies under --no-default-features and --no-default-features --features alloc, and plain cargo check succeeds for both. Bounded in N.',
+             assumptions=['every heap allocation goes through std::alloc::alloc / alloc_zeroed / realloc (the global allocator API)']),
+    'C18': P('other', False,
+             'The same deterministic contracts (C01-C13 harnesses) are discharged on the crate built with --features unstable on Kani\'s nightly; both builds satisfying the same functional contracts '
+             'gives equal results, contents and ledger events. The injected-panic part inherits the limits of C05/C06. Bounded in N.'),
     'C11': P('proof', True,
              'Verus proves absence of panics (assert!/debug_assert!/expect), arithmetic overflow, out-of-bounds indexing, division by zero and non-termination for every verified '
              'function under wf alone (swap: under the documented index condition), for all N including 0 and all arguments including usize::MAX. '
